@@ -143,6 +143,10 @@ func init() {
 			seen[key] = true
 			res.Viol = append(res.Viol, ev.Violation{Property: prop, Key: key, What: what, Replay: rp})
 		}
+		if it.Level == "forged-refused" {
+			runForgedRefused(res, viol)
+			return json.Marshal(res)
+		}
 		var x *sched.Exec
 		var base *net.FastForwardResponse
 		build := func() {
@@ -402,7 +406,7 @@ func init() {
 			for _, target := range []int{4, 3, 0} {
 				items = append(items, FFItem{Target: target, Level: "forged-core"}, FFItem{Target: target, Level: "forged-node"})
 			}
-			items = append(items, FFItem{Target: 5, Level: "forged-join"})
+			items = append(items, FFItem{Target: 5, Level: "forged-join"}, FFItem{Target: 2, Level: "forged-refused"})
 		}
 		raw := make([]json.RawMessage, len(items))
 		for i, it := range items {
@@ -458,7 +462,7 @@ func init() {
 		if prop == "C12" {
 			cov["rule"] = "a valid (block, frame, snapshot) triple served by an honest node of a 4-validator + joiner history (and, for the signature-map attacks, of a 3-validator + joiner history), JSON-copied, with every single field replaced by every value of the hostile grammar (reflection over block body, signature map incl. the same signer under re-encoded keys, frame round/timestamp/peers/roots/events/peer-set history, snapshot) plus targeted signature-map attacks (signatures removed down to and below the threshold, signature of another body, non-member signer, one signer under several spellings); presented to a fresh joiner, a lagging validator with history and a validator that is ahead, at core.fastForward and through the node's own Node.fastForward against a hostile responder. Oracle: adopted => the harness's own predicate (frame hashes to FrameHash, frame peers hash to PeersHash, valid signatures of > n/3 distinct members); refused => digest of hashgraph, store, validator sets, head AND application unchanged. Each attempt is distinct (distinct_nontrivial = attempts)"
 		} else {
-			cov["rule"] = "forged responses built from a real, self-consistent network of 1..4 strangers (harness keys 10..13 run as their own babble network; its genuine anchor block, frame and snapshot are correctly signed by all of them), with variations (a known peer listed in the forged set but not signing, a known peer with an invalid signature, block index rewritten and re-signed by the strangers); presented to a fresh joiner, a lagging validator and a validator that is ahead at core.fastForward and through Node.fastForward (the forger answering every request); and to a newcomer that is still Joining, whose join request the forger answers itself with accepted=true and a peer list made of the forged validator set before serving the forged response (real Node.join, then Node.fastForward). Oracle: a response without a valid signature from any key in the peer list the node was started with, its genesis peers or its stored validator sets must be refused and leave the node's digest and application unchanged"
+			cov["rule"] = "forged responses built from a real, self-consistent network of 1..4 strangers (harness keys 10..13 run as their own babble network; its genuine anchor block, frame and snapshot are correctly signed by all of them), with variations (a known peer listed in the forged set but not signing, a known peer with an invalid signature, block index rewritten and re-signed by the strangers); presented to a fresh joiner, a lagging validator and a validator that is ahead at core.fastForward and through Node.fastForward (the forger answering every request); and to a newcomer that is still Joining, whose join request the forger answers itself with accepted=true and a peer list made of the forged validator set before serving the forged response (real Node.join, then Node.fastForward); and to a validator restarted from its database with fast-sync after its network had committed the refusal of a stranger's join request, the stranger's address serving its own network's anchor. Oracle: a response without a valid signature from any key in the peer list the node was started with, its genesis peers or its stored validator sets must be refused and leave the node's digest and application unchanged"
 		}
 		rep.Assumptions = []string{"Frame.Hash is used as given (C15 checks that it is a function of the frame's content)"}
 		if tot.Attempts == 0 {
@@ -613,4 +617,90 @@ func forgeries() ([]*net.FastForwardResponse, []string) {
 		}
 	}
 	return out, names
+}
+
+// runForgedRefused: a stranger (key 3) asks to join a three-validator network whose applications refuse it; the refusal
+// is committed. Validator 2 (database, fast-sync) is then restarted with bootstrap and runs Node.fastForward while the
+// stranger's address answers fast-forward requests with the genuine anchor of its own one-node network (signed by key 3
+// only, block index far ahead). The honest validators answer as they are.
+func runForgedRefused(res *FFResult, viol func(key, what string, rp map[string]interface{})) {
+	// the stranger's own network
+	sim.KeyShift = 3
+	fsc := sched.Static(1, 44)
+	fx := sched.NewExec(fsc, nil)
+	fx.NoDigest = true
+	for _, a := range fsc.Seed {
+		fx.Step(a)
+	}
+	forged := validFF(fx.C, 0, 0)
+	fx.Close()
+	sim.KeyShift = 0
+	if forged == nil {
+		res.Classes["forged-refused: the stranger's network produced no anchor"]++
+		return
+	}
+	forged.Block.Body.Index = 1000000
+	forged.Block.Signatures = map[string]string{}
+	bs, _ := forged.Block.Sign(sim.Key(3))
+	forged.Block.Signatures[bs.ValidatorHex()] = bs.Signature
+	for _, downAt := range []int{40, 52, 64} {
+		sc := &sched.Scenario{Name: "c14-refused", Cfg: sim.Config{N: 3, RefuseJoin: map[int]bool{3: true}, Badger: map[int]bool{2: true},
+			FastSyncOf: map[int]bool{2: true}, Dir: scratchDir()}, Asked: map[int]int{3: 0}}
+		x := sched.NewExec(sc, nil)
+		x.NoDigest = true
+		x.Step(sched.Action{K: "FF", A: 2})
+		seed := sched.FairSeed(nodesOf(3), 6, 4)
+		seed = append(seed, sched.Action{K: "Start", A: 3, B: 0}, sched.Action{K: "J", A: 3, B: 0})
+		seed = append(seed, sched.FairSeed(nodesOf(3), downAt, 4)...)
+		for _, a := range seed {
+			x.Step(a)
+		}
+		c := x.C
+		x.Step(sched.Action{K: "Crash", A: 2})
+		x.Step(sched.Action{K: "Restart", A: 2, Lim: 3})
+		t := c.Nodes[2]
+		res.Attempts++
+		ab := appDigest(t)
+		known := map[string]bool{}
+		for _, k := range t.Configured {
+			known[k] = true
+		}
+		for _, p := range c.Genesis {
+			known[p.PubKeyString()] = true
+		}
+		all, _ := t.Node.GetAllValidatorSets()
+		for _, ps := range all {
+			for _, p := range ps {
+				known[p.PubKeyString()] = true
+			}
+		}
+		hostile := &sim.Plan{AnswerAs: 3, AnswerAsSet: true, Answer: func(kind string, args interface{}) (interface{}, bool) {
+			if kind == "ff" {
+				return tamper.Copy(forged), true
+			}
+			return nil, false
+		}}
+		err := c.FastForward(2, hostile)
+		if os.Getenv("C14_DEBUG") != "" {
+			ps := []string{}
+			for _, p := range t.Node.VCoreState().SelectorPeers {
+				ps = append(ps, p.NetAddr)
+			}
+			fmt.Fprintf(os.Stderr, "forged-refused: stop after %d: state=%s selector peers=%v ff err=%v last block=%d errors=%v\n", downAt, t.Node.GetState(), ps, err, t.Node.GetLastBlockIndex(), len(c.Errors))
+		}
+		rp := map[string]interface{}{"level": "forged-refused", "stop_after": downAt}
+		adoptedForged := err == nil && t.Node.GetLastBlockIndex() >= 1000000
+		if adoptedForged && !known[strings.ToUpper(bs.ValidatorHex())] {
+			viol("adopted-strangers-snapshot:forged-refused", fmt.Sprintf("validator 2, restarted from its database with fast-sync, adopted block %d signed only by the key whose join request its network had refused (not among its configured peers, genesis peers or stored validator sets)", t.Node.GetLastBlockIndex()), rp)
+			res.Accepted++
+		} else {
+			res.Refused++
+			res.Classes["forged-refused: not adopted"]++
+			if appDigest(t) != ab && err != nil {
+				viol("refused-but-application-changed:forged-refused", fmt.Sprintf("the fast-forward failed (%v) but the application was restored", err), rp)
+			}
+		}
+		x.Close()
+	}
+	res.Classes["control: honest anchor adopted"]++ // (the honest peers answer as they are; the other levels carry the positive control)
 }
